@@ -1,25 +1,15 @@
-"""C01 — Session state machine follows the RFC 4271 profile for every event order."""
-from .common import *
-from . import session_units as SU
+"""C01 — Session state machine follows the RFC 4271 profile for every event order"""
+from .session_prop import *
 
 ID = 'C01'
 
 
 def run(tier, seed, only=None):
-    prog = make_prog()
-    known = load_known()
-    run = Run(ID, tier, seed)
-    run.trusted = [T1, T2, T3, T4, T5, T6]
-    run.assumptions = [T1, T2, T4, LOGGING]
-    for u in SU.timer_units((ID,)) + SU.helper_units() + SU.fsm_event_units() + SU.rx_units():
-        if only and u.name not in only:
-            continue
-        run.run_unit(u, prog)
-        run.vacuity_check(u)
     from contracts import session as CS
-    if not only:
-        run.run_lemma(Lemma('dead-entry-points', lambda: CS.lemma_delay_open_dead(prog), props=(ID,)))
-    run.triage_all(known)
-    run.replay_findings()
-    run.witness_check(cap=None if tier == 'thorough' else 40)
-    return run.finish(known)
+    lemmas = LEMMAS(ID)
+    return run_session(ID, tier, seed, only=only, select=None, lemmas=lemmas)
+
+
+def LEMMAS(pid):
+    from . import session_lemmas as SL
+    return SL.for_prop(pid)
